@@ -387,71 +387,91 @@ theorem old_tag_unit_crashes :
 
 /-! ## Lint over time is a function of the text and of the CURRENT tag / command set -/
 
-/-- the cache of `create_analysis_input` is empty, or holds the definition `fetch_uod_info` answers; while the engine's
-    `UodInfoMsg` is still to come there is no definition and the cache is empty -/
-def SessOk (canInfo : Bool) (s : Sess) : Prop :=
-  (s.cached = none ∨ s.cached = s.defn) ∧ (canInfo = true → s.defn = none ∧ s.cached = none)
+/-- the cache of `create_analysis_input` is empty, or holds the definition `fetch_uod_info` answers; it is empty while
+    a `UodInfoMsg` is still to come, and after a fresh registration there is no definition either -/
+def SessOk (ph : Phase) (s : Sess) : Prop :=
+  match ph with
+  | .ready => s.cached = none ∨ s.cached = s.defn
+  | .awaitFresh => s.defn = none ∧ s.cached = none
+  | .awaitKept => s.cached = none
 
-/-- **No hidden state.**  For every history of registrations, definition updates and lints that follows the message
-    protocol, each lint returns exactly `lintPure (current definition) (current text)`: what the editor shows never
-    depends on earlier lints or on earlier tag / command sets.  (An implementation that keeps results across a change
-    of the definition disagrees with `sessRun`.) -/
-theorem lint_history_is_pure (ops : List SessOp) (c : Bool) (s : Sess) (hc : Conforms c ops) (hs : SessOk c s) :
+/-- **No hidden state.**  For every history of registrations (with fresh or kept engine data), definition updates and
+    lints — by any number of editor sessions, with any document versions — that follows the message protocol, each lint
+    returns exactly `lintPure (current definition) (text of that call)`: what an editor is shown never depends on
+    earlier lints, on other sessions, on document versions or on earlier tag / command sets.  (An implementation that
+    keeps results across a change of the definition, or per document version, disagrees with `sessRun`.)
+    Note: a lint between a data-keeping re-registration and its `UodInfoMsg` is excluded by `Conforms`; the code as it
+    is would cache the outdated definition there and keep it after the `UodInfoMsg`. -/
+theorem lint_history_is_pure (ops : List SessOp) (ph : Phase) (s : Sess) (hc : Conforms ph ops) (hs : SessOk ph s) :
     sessRun s ops = pureRun s.defn ops := by
-  induction ops generalizing c s with
+  induction ops generalizing ph s with
   | nil => rfl
   | cons op ops ih =>
     cases op with
-    | register =>
+    | register fresh =>
       simp only [sessRun, sessStep, pureRun]
-      exact ih true ⟨none, none⟩ hc ⟨Or.inl rfl, fun _ => ⟨rfl, rfl⟩⟩
+      cases fresh with
+      | true => exact ih .awaitFresh ⟨none, none⟩ hc ⟨rfl, rfl⟩
+      | false => exact ih .awaitKept ⟨s.defn, none⟩ hc rfl
     | uodInfo E =>
-      obtain ⟨hct, hrest⟩ := hc
+      obtain ⟨hph, hrest⟩ := hc
       simp only [sessRun, sessStep, pureRun]
-      have hnone : s.cached = none := (hs.2 hct).2
-      exact ih false ⟨some E, s.cached⟩ hrest ⟨Or.inl hnone, fun h => by cases h⟩
+      have hnone : s.cached = none := by
+        cases ph with
+        | ready => exact absurd rfl hph
+        | awaitFresh => exact hs.2
+        | awaitKept => exact hs
+      exact ih .ready ⟨some E, s.cached⟩ hrest (Or.inl hnone)
     | lint xs =>
+      obtain ⟨hph, hrest⟩ := hc
       simp only [sessRun, sessStep, pureRun]
-      cases hcached : s.cached with
-      | some E =>
-        have hd : s.defn = some E := by
-          rcases hs.1 with h | h
-          · rw [h] at hcached; cases hcached
-          · rw [← h]; exact hcached
-        simp only [hd, lintPure]
-        have := ih c s hc hs
+      cases ph with
+      | awaitKept => exact absurd rfl hph
+      | awaitFresh =>
+        obtain ⟨hd, hcn⟩ := hs
+        simp only [hcn, hd, lintPure]
+        have := ih .awaitFresh s hrest ⟨hd, hcn⟩
         rw [hd] at this
         rw [this]
-      | none =>
-        cases hd : s.defn with
-        | none =>
-          simp only [lintPure]
-          have := ih c s hc hs
+      | ready =>
+        cases hcached : s.cached with
+        | some E =>
+          have hd : s.defn = some E := by
+            rcases hs with h | h
+            · rw [h] at hcached; cases hcached
+            · rw [← h]; exact hcached
+          simp only [hd, lintPure]
+          have := ih .ready s hrest hs
           rw [hd] at this
           rw [this]
-        | some E =>
-          simp only [lintPure]
-          have hcf : c = false := by
-            cases c with
-            | false => rfl
-            | true => have := (hs.2 rfl).1; rw [hd] at this; cases this
-          subst hcf
-          rw [ih false ⟨some E, some E⟩ hc ⟨Or.inr rfl, fun h => by cases h⟩]
+        | none =>
+          cases hd : s.defn with
+          | none =>
+            simp only [lintPure]
+            have := ih .ready s hrest hs
+            rw [hd] at this
+            rw [this]
+          | some E =>
+            simp only [lintPure]
+            rw [ih .ready ⟨some E, some E⟩ hrest (Or.inr rfl)]
 
 /-- From the start (no engine registered yet) every protocol-conforming history is pure. -/
-theorem lint_history_from_start (ops : List SessOp) (hc : Conforms false ops) :
+theorem lint_history_from_start (ops : List SessOp) (hc : Conforms .ready ops) :
     sessRun ⟨none, none⟩ ops = pureRun none ops :=
-  lint_history_is_pure ops false ⟨none, none⟩ hc ⟨Or.inl rfl, fun h => by cases h⟩
+  lint_history_is_pure ops .ready ⟨none, none⟩ hc (Or.inl rfl)
 
--- non-vacuity: the same document linted before and after the engine re-registers with a smaller tag set — the
--- second lint flags the tag that is no longer defined (`demoEnv` without `Flow`)
+-- non-vacuity: the same document linted before and after the engine re-registers (once with fresh data, once with the
+-- data of the previous session kept) with a smaller tag set — the later lints flag the tag that is no longer defined
 example :
     let small : Env := { demoEnv with tags := [⟨"pH", none⟩] }
     let doc : List XNode := [⟨⟨0, .watch, some ⟨some "Flow", ">", "3 L/h", some "3", some "L/h"⟩, "Watch", "",
       "Flow > 3 L/h", true, true⟩, false, false, none, 0, .none⟩]
-    Conforms false [.register, .uodInfo demoEnv, .lint doc, .register, .lint doc, .uodInfo small, .lint doc] ∧
-    sessRun ⟨none, none⟩ [.register, .uodInfo demoEnv, .lint doc, .register, .lint doc, .uodInfo small, .lint doc] =
-      [[], [.generic], [.ofItem ⟨.condition, "UndefinedTag", 0, true, false⟩]] := by
+    let h : List SessOp := [.register true, .uodInfo demoEnv, .lint doc, .register true, .lint doc, .uodInfo small,
+      .lint doc, .register false, .uodInfo demoEnv, .lint doc, .register false, .uodInfo small, .lint doc]
+    Conforms .ready h ∧
+    sessRun ⟨none, none⟩ h =
+      [[], [.generic], [.ofItem ⟨.condition, "UndefinedTag", 0, true, false⟩], [],
+       [.ofItem ⟨.condition, "UndefinedTag", 0, true, false⟩]] := by
   refine ⟨by simp [Conforms], ?_⟩
   decide +kernel
 
